@@ -59,7 +59,7 @@ add(
 HIST = ("Histories are generated as plain data (lattice plug-in engine configuration: 2-7 interfaces, sh/wf moves, cap, 1..n-1 workers, "
         "single- and multi-engine layouts, delete_old, seeds, zero-swap probability; 1-3 process lifetimes with generated completion orders, "
         "clean stops and kills; restarted lifetimes may ask for fewer additional steps than workers and may run on another worker count; lambda_-1 variant of [0-], "
-        "translated copies of the system with the cap / lambda_0 / lambda_-1 on 0.0, companion files kept via keep_traj_fnames, QuanTIS zero swaps, screen / pattern reporting options; a restarted lifetime may die before its first result; an unrelated simulation may have run earlier in the same interpreter; the runner may serialise a submitted job only when the scheduler next talks to it - the latest point the real runner allows) and executed by the real scheduler()/REPEX_state/run_md/PathStorage in forked children behind a "
+        "translated copies of the system with the cap / lambda_0 / lambda_-1 on 0.0, companion files kept via keep_traj_fnames, QuanTIS zero swaps, screen / pattern reporting options, other load / data directories; a restarted lifetime may die before its first result; an unrelated simulation may have run earlier in the same interpreter; the runner may serialise a submitted job only when the scheduler next talks to it - the latest point the real runner allows) and executed by the real scheduler()/REPEX_state/run_md/PathStorage in forked children behind a "
         "deterministic runner that owns the completion order; a reference model kept by the harness is compared after every event. Sampled. ")
 ENUM = ("In addition small systems (3-5 ensembles, 1-3 workers, sh-only / wf / zero-swap move sets) are explored exhaustively in memory: every "
         "scheduler draw (scripted rgen.choice/random), every completion order and every synthesised move outcome (reject / accept with each "
@@ -89,7 +89,7 @@ add(
     HIST + ENUM + "Before every pick the idle block must have a perfect matching (independent permanent oracle) and the probability matrix must be "
     "finite, non-negative and sum to the number of idle ensembles; after every step idle slots have non-zero diagonal, live paths are "
     "distinct, path numbers increase and are never reused across restarts; each restart file loads; an exception or a child that does not "
-    "terminate (sort loop) is a violation.",
+    "terminate (sort loop) is a violation. Exhaustive part `shapes`: for every multiset of 0/1 staircase rows of 2..6 plus-ensembles (sorted and reversed arrangement, nothing busy / each single ensemble busy) the draws pick() makes from the probability matrix are possible.",
     "Precondition taken from the sampler's design: the engine cannot jump over [lambda_i, cap) (staircase weights) - generated caps respect it. Time-out 240 s per lifetime (normal: < 1 s).",
 )
 
@@ -235,7 +235,7 @@ add(
     "earlier restart with jobs in flight) an interposer numbers every file-system effect of the main process inside treat_output (open-for-write, "
     "content commit, move, remove, rmdir, every single mkdir, replace) in a dry run; then the process is killed before EVERY effect index (content commits: "
     "0 bytes, a prefix, all but one byte), plus second crashes inside the recovery run and while the restart is being prepared (setup_config's repair of the data file). In fresh forks the restart must start and load every "
-    "path with non-zero weight, re-issue the recorded in-flight jobs, continue to the requested steps keeping the per-step invariants of "
+    "path with non-zero weight, re-issue the recorded in-flight jobs (and the record on disk must list exactly the jobs that were in flight when it was written, by the dry run's trace), continue to the requested steps keeping the per-step invariants of "
     "C04/C05/C14, list every replaced path exactly once in the data file and conserve the weights. Exhaustive over single crash points of the "
     "chosen target steps (incl. the step before the last of a multi-worker run, continued to the same step count: the jobs in flight then cover all steps that are left - every counted step must be a completed move); scenarios are sampled.",
     "Crash = process death (os._exit), not power loss: data not yet written by the process is lost, written data persists. Buffered writes are "
